@@ -146,7 +146,7 @@ def check(P, R):
                                 eof_must='raise')
     # counter derives from int(..., 16)
     hn = T.loop_head(g, ploop)
-    defs = [d for d in rd.at(hn, counter) if d.kind == 'assign']
+    defs = rd.root_defs(hn, counter, kinds=('assign', 'param', 'unpack', 'for', 'with', 'walrus'))
     okc = bool(defs) and all(isinstance(d.value, ast.Call) and dotted(d.value.func) == 'int' and len(d.value.args) == 2
                              and is_const(d.value.args[1], 16) for d in defs)
     R.ob('C05.a', f, ploop.test, okc, text=f'{counter} = int(<size line>, 16)', detail='' if okc else
@@ -163,8 +163,31 @@ def check(P, R):
                 continue  # payload read: covered by C05.c-clause of the loop (reported under C05.c by the shared routine)
             tests = T.falsy_tests(g, var)
             if not tests:
-                R.ob('C05.b', f, c, False, detail=f'result `{var}` of the read is never tested for emptiness',
-                     why='a truncated encoding would be scanned for ever or accepted')
+                # or: the bytes read are compared with a non-empty constant and a mismatch leads only to the parsing error
+                cmp_ok = False
+                for tn in g.nodes:
+                    if tn.kind != 'test' or var not in names_loaded(tn.ast) or not any(d_.value is c for d_ in rd.at(tn, var)):
+                        continue
+                    t_, neg_ = strip_not(tn.ast)
+                    cp_ = compare_parts(t_)
+                    if not cp_ or cp_[1] not in (ast.Eq, ast.NotEq):
+                        continue
+                    side = cp_[2] if var in names_loaded(cp_[0]) else cp_[0]
+                    try:
+                        kv = T.ceval(f, T.expand(f, side, tn))
+                    except T.CannotEval:
+                        continue
+                    if not (isinstance(kv, (bytes, str)) and len(kv) > 0):
+                        continue
+                    mism = ('false' if neg_ else 'true') if cp_[1] is ast.NotEq else ('true' if neg_ else 'false')
+                    reach = g.reachable_from(T.succ_by_label(tn, mism))
+                    if g.exit not in reach and not any(y in reach for y in ys) and not any(n in reach for r2 in reads for n in g.node_of_stmt(r2)):
+                        cmp_ok = True
+                        R.ob('C05.b', f, tn.ast, True, text=f'if {short(tn.ast)} [mismatch with the expected bytes = end of stream or bad terminator]',
+                             key_extra=f'cmp:{var}')
+                if not cmp_ok:
+                    R.ob('C05.b', f, c, False, detail=f'result `{var}` of the read is never tested for emptiness',
+                         why='a truncated encoding would be scanned for ever or accepted')
             for (tn, lab) in tests:
                 succ = T.succ_by_label(tn, lab)
                 reach = g.reachable_from(succ)
@@ -387,6 +410,12 @@ def check_raise_and_body(P, R, rid):
         rn = g.node_of_stmt(r)[0]
         cl = rd.closure_nodes(r.exc, rn) if r.exc is not None else []
         ok = any(isinstance(x, ast.Call) and call_attr(x) == 'get' for x in cl)
+        if not ok and isinstance(r.exc, ast.Name) and r.exc.id == f.params[1] and all(d.kind == 'param' for d in rd.at(rn, r.exc.id)) \
+                and fors and not T._inside(r, fors[0].body):
+            # the original error, raised once both lookups found nothing (after the loop)
+            mapped = [r2 for r2 in raises if r2 is not r and any(isinstance(x, ast.Call) and call_attr(x) == 'get'
+                                                                 for x in rd.closure_nodes(r2.exc, g.node_of_stmt(r2)[0]))]
+            ok = bool(mapped) and all(T._inside(r2, fors[0].body) for r2 in mapped)
         R.ob(rid, f, r, ok, detail='' if ok else 'the raised object does not derive from the errors_map lookup')
     # normal exit impossible: _raise always raises
     ok = not f.cfg.exit.pred
